@@ -71,6 +71,15 @@ func (x *X) runGhost(f *Frame, st *State, where, txt string, pos token.Pos) {
 }
 
 func (x *X) execGhost(f *Frame, st *State, g *GhostStmt, pos token.Pos) {
+	if g.Kind == "snapshot" {
+		if f.snaps == nil {
+			f.snaps = map[string]*State{}
+		}
+		sn := st.clone()
+		sn.wlog = nil
+		f.snaps[g.Target] = sn
+		return
+	}
 	if g.Expr == nil {
 		pe, err := parseSpecExpr(g.Text)
 		if err != nil {
